@@ -43,6 +43,9 @@ class World:
     def request(self, note, expect_cacheable=True, evicted=False):
         argv = self.argv(); out = os.path.join(self.w, self.out)
         env = dict(self.env)
+        # a forced re-store of this request (client-side SCCACHE_RECACHE): it must miss, store again, and leave the entry usable
+        recache = getattr(self, 'recache_next', False); self.recache_next = False
+        if recache: env['SCCACHE_RECACHE'] = '1'
         before = counts(self.sc.stats() or {}) if True else {}
         nlog = loglines(self.log)
         dwo = out[:-2] + '.dwo'
@@ -89,7 +92,7 @@ class World:
                 short = lambda t: (t[3] and (t[3][0][:8], oct(t[3][1])), t[4] and t[4][:8])
                 self.fails.append({'kind': 'differs_from_direct', 'detail': f'{"/".join(what)} differ from the direct compile after [{note}] ({cls})', 'ops': list(self.trace) + [f'wrapped: rc={got[0]} object/.dwo {short(got)}; direct: rc={want[0]} object/.dwo {short(want)}; leftover outputs kept: {sorted(os.path.basename(k) for k in saved)}']})
         if expect_cacheable and want[0] == 0:
-            if fp in self.seen and not evicted:
+            if fp in self.seen and not evicted and not recache:
                 if cls != 'hit' or ran != 0:
                     self.fails.append({'kind': 'repeat_not_hit', 'detail': f'identical successful request was stored earlier but [{note}] was classified {cls}, compiler ran {ran}x', 'ops': list(self.trace)})
             if cls in ('hit', 'miss'):
@@ -107,7 +110,8 @@ class World:
 
 def mutate(w, rng):
     """one random edit of the world; returns a note"""
-    k = rng.randrange(18)
+    k = rng.randrange(20)
+    if k >= 18: w.recache_next = True; return 'no change, forced re-store (SCCACHE_RECACHE)'
     if k == 0: w.write('main.c', SRC.format(fn='f', k=rng.randrange(1, 9))); return 'edit source (same size)'
     if k == 1: w.write('main.c', SRC.format(fn='f', k=rng.randrange(10, 999)) + '/* pad */\n' * rng.randrange(3)); return 'edit source (size change)'
     if k == 2: w.write('h1.h', '#define A %d\n' % rng.randrange(1, 9)); return 'edit header h1 (same size)'
